@@ -236,8 +236,10 @@ Fixpoint frag2 (st : stmt) : bool :=
       && (fix ab (l : list (expr * list stmt)) : bool := match l with [] => true | cb :: r => pure (fst cb) && all (snd cb) && ab r end) elifs
       && all els
   | SFor init cond incr body => simple_opt init && pure cond && simple_opt incr && all body
-  | SAssignCall [_] (ECall _ [_] args) => forallb pure args      (* x = f(args): one result *)
-  | SVarDefCall [_] (ECall _ [_] args) => forallb pure args      (* x := f(args) *)
+  | SAssign (_ :: _ :: xr) es => forallb pure es && Nat.eqb (length es) (S (S (length xr)))     (* x, y = e1, e2 *)
+  | SVarDef (_ :: _ :: xr) es => forallb pure es && Nat.eqb (length es) (S (S (length xr)))    (* x, y := e1, e2 *)
+  | SAssignCall _ (ECall _ _ args) => forallb pure args          (* x, y = f(args) *)
+  | SVarDefCall _ (ECall _ _ args) => forallb pure args          (* x, y := f(args) *)
   | SExpr (ECall _ _ args) => forallb pure args                  (* f(args) *)
   | _ => false
   end.
@@ -356,12 +358,28 @@ Proof.
   eapply e3_trans; [exact (e3_expr _ _ _ _ _ H1)|exact (store_e3 _ _ _ _ _ H2)].
 Qed.
 
+Lemma evals_e3 many : forall es i s vs s', eval_values bash_conv many es i s = TOk vs s' -> emits3 s s'.
+Proof.
+  induction es as [|e r IH]; intros i s vs s' H; cbn [eval_values] in H; [mr H; apply e3_refl|].
+  mb H as ve s1 H1 H2. mb H2 as v s2 H2 H3. mb H3 as vr s3 H3 H4. mr H4.
+  eapply e3_trans; [exact (e3_expr _ _ _ _ _ H1)|]. eapply e3_trans; [|exact (IH _ _ _ _ H3)].
+  destruct many.
+  - mb H2 as u1 s4 H2 H5. mu H2. subst s4. inversion H5; subst. apply e3_line. reflexivity.
+  - mr H2. apply e3_refl.
+Qed.
+
+Lemma assign_any_e3 vars es s u s' : t_stmt bash_conv (SAssign vars es) s = TOk u s' -> emits3 s s'.
+Proof.
+  intro Ht. cbn [t_stmt] in Ht. unfold assign_values in Ht. destruct (length es <? length vars)%nat; [discriminate|].
+  mb Ht as vs s1 H1 H2. eapply e3_trans; [exact (evals_e3 _ _ _ _ _ _ H1)|exact (store_e3 _ _ _ _ _ H2)].
+Qed.
+
 Theorem frag2_e3 : forall st, stmt_e3 st.
 Proof.
   induction st using AstInd.stmt_ind'; intro Hf; try discriminate; intros s u s' Ht.
-  - (* SVarDef *) exact (simple_stmt_e3 (SVarDef vs es) s u s' Hf Ht).
+  - (* SVarDef *) change (t_stmt bash_conv (SVarDef vs es) s) with (t_stmt bash_conv (SAssign vs es) s) in Ht. exact (assign_any_e3 vs es s u s' Ht).
   - (* SVarDefCall *) change (t_stmt bash_conv (SVarDefCall vs c) s) with (t_stmt bash_conv (SAssignCall vs c) s) in Ht. exact (assign_call_e3 vs c s u s' Ht).
-  - (* SAssign *) exact (simple_stmt_e3 (SAssign vs es) s u s' Hf Ht).
+  - (* SAssign *) exact (assign_any_e3 vs es s u s' Ht).
   - (* SAssignCall *) exact (assign_call_e3 vs c s u s' Ht).
   - (* SIf *)
     destruct brs as [|[c0 b0] elifs]; [discriminate|]. rewrite frag2_if in Hf.
@@ -421,6 +439,133 @@ Qed.
 (* ---- names of flags; what a block may write ---- *)
 Definition fname (k : nat) : bytes := bs "_fv" ++ dec_nat k.
 
+(* the parking variables of a simultaneous assignment *)
+Definition ma_var (s : bstate) (i : nat) : bytes := var_name s (ma_name i) false.
+
+Lemma ma_var_cext s s' ls i : cext s s' ls -> ma_var s' i = ma_var s i.
+Proof. intros E. unfold ma_var, var_name. rewrite (cx_funcs _ _ _ E), (cx_fcnt _ _ _ E). reflexivity. Qed.
+
+Lemma ma_var_ext s s' ls i : ext s s' ls -> ma_var s' i = ma_var s i.
+Proof. intros E. unfold ma_var, var_name. rewrite (x_funcs _ _ _ E), (x_fcnt _ _ _ E). reflexivity. Qed.
+
+Lemma ma_not_helper s i k : ma_var s i <> helper_name s k.
+Proof. unfold ma_var, helper_name, var_name, ma_name. destruct ((0 <? b_funcs s)%nat && negb false); intro H; [apply app_inv_head in H; apply app_inv_head in H|]; cbn in H; inversion H. Qed.
+
+Lemma ma_var_inj s i j : ma_var s i = ma_var s j -> i = j.
+Proof.
+  unfold ma_var, var_name, ma_name. destruct ((0 <? b_funcs s)%nat && negb false); intro H.
+  - do 4 apply app_inv_head in H. apply dec_N_inj in H. apply Nat2N.inj in H. exact H.
+  - apply app_inv_head in H. apply dec_N_inj in H. apply Nat2N.inj in H. exact H.
+Qed.
+
+(* ---- storing a list of parked values into a list of variables (multi-value calls, simultaneous assignment) ---- *)
+Fixpoint assign_all (sg : senv) (xs : list var) (vals : list value) : senv :=
+  match xs, vals with x :: xr, v :: vr => assign_all (supd sg x v) xr vr | _, _ => sg end.
+
+Lemma stores_step XS : forall xs atoms vals sg s u s' b,
+  store_values bash_conv xs atoms s = TOk u s' -> length atoms = length xs -> length vals = length xs ->
+  (forall x, In x xs -> In x XS) -> map (atom_text b) atoms = map text vals ->
+  (forall a x, In a atoms -> In x XS -> a <> ARef (user_name s x)) -> ctx_ok XS sg b s ->
+  exists ls b', cext s s' ls /\ exec_lines b ls = Some b' /\ ctx_ok XS (assign_all sg xs vals) b' s' /\
+     b_for_counter s' = b_for_counter s /\
+     (forall n, (forall x, In x xs -> n <> user_name s x) -> sh_get n b' = sh_get n b).
+Proof.
+  induction xs as [|x xr IH]; intros atoms vals sg s u s' b H La Lv Hin Hmap Hat Hc.
+  - cbn [store_values] in H. mr H. exists [], b. split; [apply cext_refl|]. split; [reflexivity|].
+    destruct vals; [|discriminate]. split; [exact Hc|]. split; [reflexivity|]. intros; reflexivity.
+  - destruct atoms as [|a ar]; [discriminate|]. destruct vals as [|v vr]; [discriminate|].
+    cbn [store_values] in H. mb H as u1 s1 H1 H2. mu H1. subst s1. rewrite bash_var_definition in H2.
+    change (var_name s (v_name x) (v_global x)) with (user_name s x) in H2.
+    set (n := user_name s x) in *. set (s1 := add_line (LAssign n (RAtom a)) s) in *.
+    cbn [map] in Hmap. injection Hmap as Ha Hmr.
+    set (b1 := sh_set n (atom_text b a) b).
+    assert (In x XS) as Hx by (apply Hin; left; reflexivity).
+    assert (cext s s1 [LAssign n (RAtom a)]) as E1 by apply cext_line.
+    destruct Hc as [Cf Hrep Hhy Hinj].
+    assert (ctx_ok XS (supd sg x v) b1 s1) as Hc1.
+    { apply (ctx_cext XS _ _ s _ _ E1). constructor; [exact Cf| |exact Hhy|exact Hinj].
+      intros y w Hy Hw. unfold supd in Hw. destruct (same_var y x) eqn:Sv.
+      - inversion Hw; subst w. unfold b1. rewrite (same_var_name s y x Sv). fold n. rewrite sh_get_set_same. exact Ha.
+      - unfold b1. rewrite sh_get_set_other; [exact (Hrep y w Hy Hw)|]. unfold n. intro Heq. rewrite (Hinj y x Hy Hx Heq) in Sv. discriminate. }
+    assert (map (atom_text b1) ar = map text vr) as Hmr1.
+    { rewrite <- Hmr. apply map_ext_in. intros a' Ha'. destruct a' as [t|m]; [reflexivity|]. cbn [atom_text]. unfold b1.
+      apply sh_get_set_other. intro Heq. apply (Hat (ARef m) x (or_intror Ha') Hx). rewrite Heq. reflexivity. }
+    destruct (IH ar vr (supd sg x v) s1 u s' b1 H2 ltac:(cbn [length] in La; lia) ltac:(cbn [length] in Lv; lia)
+                 (fun y Hy => Hin y (or_intror Hy)) Hmr1
+                 (fun a' y Ha' Hy => eq_ind_r (fun t => a' <> ARef t) (Hat a' y (or_intror Ha') Hy) (user_name_cext _ _ _ y E1)) Hc1)
+      as (ls & b' & E2 & R2 & C2 & M2 & F2).
+    exists ([LAssign n (RAtom a)] ++ ls), b'. split; [eapply cext_trans; eassumption|].
+    split; [cbn [app exec_lines exec_line eval_rhs]; exact R2|]. split; [exact C2|]. split; [rewrite M2; reflexivity|].
+    intros m Hm. rewrite F2.
+    + unfold b1. apply sh_get_set_other. apply Hm. left. reflexivity.
+    + intros y Hy. rewrite (user_name_cext _ _ _ y E1). apply Hm. right. exact Hy.
+Qed.
+
+(* ---- the copies of the return registers behind a call line ---- *)
+Fixpoint copy_lines (st : bstate) (k i n : nat) : list line :=
+  match n with O => [] | S m => LAssign (helper_name st k) (RAtom (ARef (rv_name i))) :: copy_lines st (S k) (S i) m end.
+Fixpoint copy_atoms (st : bstate) (k n : nat) : list atom :=
+  match n with O => [] | S m => ARef (helper_name st k) :: copy_atoms st (S k) m end.
+
+Lemma copy_atoms_length st : forall n k, length (copy_atoms st k n) = n.
+Proof. induction n as [|n IH]; intro k; [reflexivity|]. cbn [copy_atoms length]. rewrite IH. reflexivity. Qed.
+
+Lemma helper_assign_forc mk s a s' : helper_assign mk s = (a, s') -> b_for_counter s' = b_for_counter s.
+Proof. unfold helper_assign, next_helper. intro H. inversion H; subst. reflexivity. Qed.
+
+Lemma copies_fold {A} : forall (rets : list A) vs0 st i,
+  exists s2 j,
+    fold_left (fun (acc : list atom * bstate * nat) (_ : A) =>
+                 let '(vs, st, i) := acc in let '(h, st') := helper_assign (RAtom (ARef (rv_name i))) st in (vs ++ [h], st', S i)) rets (vs0, st, i)
+    = (vs0 ++ copy_atoms st (b_var_counter st) (length rets), s2, j) /\
+    cext st s2 (copy_lines st (b_var_counter st) i (length rets)).
+Proof.
+  induction rets as [|r rr IH]; intros vs0 st i.
+  - exists st, i. cbn [fold_left length copy_atoms copy_lines]. rewrite app_nil_r. split; [reflexivity|apply cext_refl].
+  - cbn [fold_left]. destruct (helper_assign (RAtom (ARef (rv_name i))) st) as [h st'] eqn:EH.
+    destruct (helper_assign_spec _ _ _ _ EH) as (-> & Ex & Hc).
+    destruct (IH (vs0 ++ [ARef (helper_name st (b_var_counter st))]) st' (S i)) as (s2 & j & Hf & E2).
+    exists s2, j. rewrite Hf. cbn [length copy_atoms copy_lines]. rewrite Hc, <- app_assoc. cbn [app].
+    assert (forall n k, copy_atoms st' k n = copy_atoms st k n) as Ha
+      by (induction n as [|n IHn]; intro k; [reflexivity|]; cbn [copy_atoms]; rewrite (helper_name_ext _ _ _ k Ex), IHn; reflexivity).
+    assert (forall n k i0, copy_lines st' k i0 n = copy_lines st k i0 n) as Hl
+      by (induction n as [|n IHn]; intros k i0; [reflexivity|]; cbn [copy_lines]; rewrite (helper_name_ext _ _ _ k Ex), IHn; reflexivity).
+    rewrite Ha. split; [reflexivity|]. rewrite Hl, Hc in E2.
+    change (LAssign (helper_name st (b_var_counter st)) (RAtom (ARef (rv_name i))) :: copy_lines st (S (b_var_counter st)) (S i) (length rr))
+      with ([LAssign (helper_name st (b_var_counter st)) (RAtom (ARef (rv_name i)))] ++ copy_lines st (S (b_var_counter st)) (S i) (length rr)).
+    eapply cext_trans; [|exact E2]. apply cext_of_ext; [exact Ex|rewrite (helper_assign_forc _ _ _ _ EH); apply le_n].
+Qed.
+
+Lemma rv_not_helper s i k : rv_name i <> helper_name s k.
+Proof. unfold rv_name, helper_name, var_name. destruct ((0 <? b_funcs s)%nat && negb false); intro H; cbn in H; inversion H. Qed.
+
+Lemma copies_exec st : forall n k i b,
+  exists b', exec_lines b (copy_lines st k i n) = Some b' /\
+             (forall j, (j < n)%nat -> sh_get (helper_name st (k + j)) b' = sh_get (rv_name (i + j)) b) /\
+             (forall m, (forall j, (k <= j)%nat -> m <> helper_name st j) -> sh_get m b' = sh_get m b).
+Proof.
+  induction n as [|n IH]; intros k i b.
+  - exists b. split; [reflexivity|]. split; [intros j Hj; lia|intros; reflexivity].
+  - cbn [copy_lines exec_lines exec_line eval_rhs atom_text].
+    set (b1 := sh_set (helper_name st k) (sh_get (rv_name i) b) b).
+    destruct (IH (S k) (S i) b1) as (b' & Hx & Hv & Hf). exists b'. split; [exact Hx|]. split.
+    + intros j Hj. destruct j as [|j].
+      * rewrite Nat.add_0_r, Nat.add_0_r. rewrite Hf; [unfold b1; apply sh_get_set_same|].
+        intros j Hj0 Heq. apply helper_name_inj in Heq. lia.
+      * replace (k + S j)%nat with (S k + j)%nat by lia. replace (i + S j)%nat with (S i + j)%nat by lia.
+        rewrite (Hv j ltac:(lia)). unfold b1. apply sh_get_set_other. apply rv_not_helper.
+    + intros m Hm. rewrite (Hf m (fun j Hj => Hm j ltac:(lia))). unfold b1. apply sh_get_set_other. apply Hm. apply le_n.
+Qed.
+
+Lemma copies_values st : forall (rvals : list value) k b,
+  (forall j v, nth_error rvals j = Some v -> sh_get (helper_name st (k + j)) b = text v) ->
+  map (atom_text b) (copy_atoms st k (length rvals)) = map text rvals.
+Proof.
+  induction rvals as [|v vr IH]; intros k b H; [reflexivity|].
+  cbn [length copy_atoms map atom_text]. rewrite <- (Nat.add_0_r k) at 1. rewrite (H 0%nat v eq_refl). f_equal.
+  apply (IH (S k) b). intros j w Hj. replace (S k + j)%nat with (k + S j)%nat by lia. exact (H (S j) w Hj).
+Qed.
+
 Section WithCalls.
 (* ---- call statements: arguments, the call line, the copy of the return register ---- *)
 Definition args_fix :=
@@ -465,9 +610,6 @@ Proof.
   rewrite bash_call_used in Hcv. cbn [fst length Nat.eqb negb andb] in Hcv. inversion Hcv. split; reflexivity.
 Qed.
 
-Lemma helper_assign_forc mk s a s' : helper_assign mk s = (a, s') -> b_for_counter s' = b_for_counter s.
-Proof. unfold helper_assign, next_helper. intro H. inversion H; subst. reflexivity. Qed.
-
 Lemma bash_call_unused f va rets s :
   cv_func_call bstate atom bash_conv f va rets false s = (map (fun _ => ALit []) rets, add_line (LCall f va) s).
 Proof. reflexivity. Qed.
@@ -484,6 +626,9 @@ Variable mlo : nat.
 (* the source side of a call: function, argument values, environment -> result values, environment afterwards, output *)
 Variable scall : list var -> bytes -> list value -> senv -> list value -> senv -> bytes -> Prop.
 
+Lemma fname_not_ma s k i : fname k <> ma_var s i.
+Proof. unfold fname, ma_var, var_name, ma_name. destruct ((0 <? b_funcs s)%nat && negb false); intro H; cbn in H; inversion H. Qed.
+
 Lemma fname_not_helper s k j : fname k <> helper_name s j.
 Proof.
   unfold fname, helper_name, var_name. destruct ((0 <? b_funcs s)%nat && negb false); intro H; cbn in H; inversion H.
@@ -491,14 +636,16 @@ Qed.
 
 Definition fresh_flags (XS : list var) (s : bstate) : Prop :=
   (forall x k, In x XS -> user_name s x <> fname k) /\ (forall x i, In x XS -> user_name s x <> rv_name i) /\ (klo <= b_for_counter s)%nat /\
-  (forall x c y, In x XS -> (c < mlo)%nat -> user_name s x <> mangled c y).
+  (forall x c y, In x XS -> (c < mlo)%nat -> user_name s x <> mangled c y) /\
+  (forall x i, In x XS -> user_name s x <> ma_var s i).
 
 (* a block may write: the program's variables, the helpers of the current context, loop flags outside the protected
    range [klo, loop counter), and -- through calls -- mangled names and return registers *)
 Definition untouched (XS : list var) (s s' : bstate) (b b' : shenv) : Prop :=
   forall n, (forall x, In x XS -> n <> user_name s x) -> (forall k, n <> helper_name s k) ->
             (forall k, (k < klo \/ b_for_counter s <= k < b_for_counter s')%nat -> n <> fname k) ->
-            (forall c x, (c < mlo)%nat -> n <> mangled c x) -> (forall i, n <> rv_name i) -> sh_get n b' = sh_get n b.
+            (forall c x, (c < mlo)%nat -> n <> mangled c x) -> (forall i, n <> rv_name i) -> (forall i, n <> ma_var s i) ->
+            sh_get n b' = sh_get n b.
 
 (* the oracle refines the source side of calls: results arrive in the return registers, the caller's variables
    (XS: also the globals the function may write) stay represented, nothing protected is written *)
@@ -510,22 +657,23 @@ Definition call_refines : Prop :=
 Hypothesis call_ok : call_refines.
 
 Lemma untouched_refl XS s s' b : untouched XS s s' b b.
-Proof. intros n _ _ _ _ _. reflexivity. Qed.
+Proof. intros n _ _ _ _ _ _. reflexivity. Qed.
 
 (* a block inside a longer stretch of code *)
 Lemma untouched_gen XS s0 s s' s0' ls b b' :
   cext s0 s ls -> (b_for_counter s' <= b_for_counter s0')%nat -> untouched XS s s' b b' -> untouched XS s0 s0' b b'.
 Proof.
-  intros E M U n Hu Hh Hf Hm Hr. pose proof (cx_mono _ _ _ E) as M0. apply U.
+  intros E M U n Hu Hh Hf Hm Hr Hma. pose proof (cx_mono _ _ _ E) as M0. apply U.
   - intros x Hx. rewrite (user_name_cext _ _ _ x E). apply Hu. exact Hx.
   - intro k. rewrite (helper_name_cext _ _ _ k E). apply Hh.
   - intros k Hk. apply Hf. lia.
   - exact Hm.
   - exact Hr.
+  - intro i. rewrite (ma_var_cext _ _ _ i E). apply Hma.
 Qed.
 
 Lemma untouched_compose XS s s' b b1 b2 : untouched XS s s' b b1 -> untouched XS s s' b1 b2 -> untouched XS s s' b b2.
-Proof. intros U1 U2 n Hu Hh Hf Hm Hr. rewrite (U2 n Hu Hh Hf Hm Hr). exact (U1 n Hu Hh Hf Hm Hr). Qed.
+Proof. intros U1 U2 n Hu Hh Hf Hm Hr Hma. rewrite (U2 n Hu Hh Hf Hm Hr Hma). exact (U1 n Hu Hh Hf Hm Hr Hma). Qed.
 
 Lemma untouched_trans XS s s1 s2 ls b b1 b2 :
   cext s s1 ls -> (b_for_counter s1 <= b_for_counter s2)%nat -> untouched XS s s1 b b1 -> untouched XS s1 s2 b1 b2 -> untouched XS s s2 b b2.
@@ -566,7 +714,7 @@ Proof.
     - rewrite sh_get_set_other.
       + rewrite F1; [exact (Hrep y w Hy Hw)|]. intros k _ Heq. exact (Hhy y k Hy Heq).
       + rewrite Hnn. intro Heq. rewrite (Hinj y x Hy Hx Heq) in Sv. discriminate. }
-  intros m Hu Hh _ _ _. rewrite sh_get_set_other; [|rewrite Hnn; apply Hu; exact Hx]. apply F1. intros k _. apply Hh.
+  intros m Hu Hh _ _ _ _. rewrite sh_get_set_other; [|rewrite Hnn; apply Hu; exact Hx]. apply F1. intros k _. apply Hh.
 Qed.
 
 Lemma pv_mono es : forall s vs s', pv_fix es s = TOk vs s' -> (b_for_counter s <= b_for_counter s')%nat.
@@ -594,7 +742,7 @@ Proof.
   split.
   { apply (ctx_ext XS _ _ s _ _ E2). constructor; [exact Cf| |exact Hhy|exact Hinj].
     intros x w Hx Hw. rewrite F1; [exact (Hrep x w Hx Hw)|]. intros k _ Heq. exact (Hhy x k Hx Heq). }
-  intros m _ Hh _ _ _. apply F1. intros k _. apply Hh.
+  intros m _ Hh _ _ _ _. apply F1. intros k _. apply Hh.
 Qed.
 
 (* ---- the source side: signals and loops ---- *)
@@ -612,6 +760,14 @@ Inductive J (XS : list var) : code -> senv -> senv -> bytes -> sig -> Prop :=
 | j_define sg x e v r sg' out g :
     pure e = true -> side XS e -> In x XS -> peval sg e = Some v -> env_ok (supd sg x v) ->
     J XS (Prog r) (supd sg x v) sg' out g -> J XS (Prog (SVarDef [x] [e] :: r)) sg sg' out g
+| j_assign_multi sg xs es vals r sg' out g :
+    forallb pure es = true -> (forall e, In e es -> side XS e) -> (forall x, In x xs -> In x XS) -> (2 <= length xs)%nat ->
+    length es = length xs -> pevals sg es = Some vals -> env_ok (assign_all sg xs vals) ->
+    J XS (Prog r) (assign_all sg xs vals) sg' out g -> J XS (Prog (SAssign xs es :: r)) sg sg' out g
+| j_define_multi sg xs es vals r sg' out g :
+    forallb pure es = true -> (forall e, In e es -> side XS e) -> (forall x, In x xs -> In x XS) -> (2 <= length xs)%nat ->
+    length es = length xs -> pevals sg es = Some vals -> env_ok (assign_all sg xs vals) ->
+    J XS (Prog r) (assign_all sg xs vals) sg' out g -> J XS (Prog (SVarDef xs es :: r)) sg sg' out g
 | j_print sg es vals r sg' out g :
     forallb pure es = true -> (forall e, In e es -> side XS e) -> pevals sg es = Some vals ->
     J XS (Prog r) sg sg' out g -> J XS (Prog (SPrint es :: r)) sg sg' (join [32] (map text vals) ++ [10] ++ out) g
@@ -623,6 +779,14 @@ Inductive J (XS : list var) : code -> senv -> senv -> bytes -> sig -> Prop :=
     forallb pure args = true -> (forall e, In e args -> side XS e) -> In x XS -> pevals sg args = Some vals ->
     scall XS f vals sg [rv] sg1 o -> env_ok (supd sg1 x rv) ->
     J XS (Prog r) (supd sg1 x rv) sg' out g -> J XS (Prog (SVarDefCall [x] (ECall f [t] args) :: r)) sg sg' (o ++ out) g
+| j_call_assign_multi sg xs f rets args vals rvals sg1 o r sg' out g :
+    forallb pure args = true -> (forall e, In e args -> side XS e) -> (forall x, In x xs -> In x XS) -> pevals sg args = Some vals ->
+    scall XS f vals sg rvals sg1 o -> length rets = length xs -> length rvals = length xs -> env_ok (assign_all sg1 xs rvals) ->
+    J XS (Prog r) (assign_all sg1 xs rvals) sg' out g -> J XS (Prog (SAssignCall xs (ECall f rets args) :: r)) sg sg' (o ++ out) g
+| j_call_define_multi sg xs f rets args vals rvals sg1 o r sg' out g :
+    forallb pure args = true -> (forall e, In e args -> side XS e) -> (forall x, In x xs -> In x XS) -> pevals sg args = Some vals ->
+    scall XS f vals sg rvals sg1 o -> length rets = length xs -> length rvals = length xs -> env_ok (assign_all sg1 xs rvals) ->
+    J XS (Prog r) (assign_all sg1 xs rvals) sg' out g -> J XS (Prog (SVarDefCall xs (ECall f rets args) :: r)) sg sg' (o ++ out) g
 | j_call_stmt sg f rets args vals rvals sg1 o r sg' out g :
     forallb pure args = true -> (forall e, In e args -> side XS e) -> pevals sg args = Some vals ->
     scall XS f vals sg rvals sg1 o -> env_ok sg1 ->
@@ -708,11 +872,12 @@ Qed.
 
 Lemma fresh_cext XS s s' ls : cext s s' ls -> fresh_flags XS s -> fresh_flags XS s'.
 Proof.
-  intros E [H1 [H2 [H3 H4]]]. split; [|split; [|split]].
+  intros E [H1 [H2 [H3 [H4 H5]]]]. split; [|split; [|split; [|split]]].
   - intros x k Hx. rewrite (user_name_cext _ _ _ x E). exact (H1 x k Hx).
   - intros x i Hx. rewrite (user_name_cext _ _ _ x E). exact (H2 x i Hx).
   - pose proof (cx_mono _ _ _ E). lia.
   - intros x c y Hx Hc. rewrite (user_name_cext _ _ _ x E). exact (H4 x c y Hx Hc).
+  - intros x i Hx. rewrite (user_name_cext _ _ _ x E), (ma_var_cext _ _ _ i E). exact (H5 x i Hx).
 Qed.
 
 Definition simP (XS : list var) (sg : senv) (body : list stmt) (sg' : senv) (out : bytes) (g : sig) : Prop :=
@@ -764,6 +929,117 @@ Proof.
   exact (lruns_straight l1 b b1 _ L _ _ R1 (Hk L rest res H)).
 Qed.
 
+(* ---- simultaneous assignment: every value is parked in _ma<i> before the first store ---- *)
+Fixpoint ma_atoms (s : bstate) (i n : nat) : list atom :=
+  match n with O => [] | S m => ARef (ma_var s i) :: ma_atoms s (S i) m end.
+
+Lemma ma_atoms_length s : forall n i, length (ma_atoms s i n) = n.
+Proof. induction n as [|n IH]; intro i; [reflexivity|]. cbn [ma_atoms length]. rewrite IH. reflexivity. Qed.
+
+Lemma ma_atoms_in s : forall n i a, In a (ma_atoms s i n) -> exists j, a = ARef (ma_var s j).
+Proof. induction n as [|n IH]; intros i a H; [destruct H|]. cbn [ma_atoms In] in H. destruct H as [<-|H]; [exists i; reflexivity|exact (IH (S i) a H)]. Qed.
+
+Lemma ma_values s : forall (vals : list value) i b,
+  (forall j v, nth_error vals j = Some v -> sh_get (ma_var s (i + j)) b = text v) ->
+  map (atom_text b) (ma_atoms s i (length vals)) = map text vals.
+Proof.
+  induction vals as [|v vr IH]; intros i b H; [reflexivity|].
+  cbn [length ma_atoms map atom_text]. rewrite <- (Nat.add_0_r i) at 1. rewrite (H 0%nat v eq_refl). f_equal.
+  apply (IH (S i) b). intros j w Hj. replace (S i + j)%nat with (i + S j)%nat by lia. exact (H (S j) w Hj).
+Qed.
+
+Lemma pevals_length sg : forall es vals, pevals sg es = Some vals -> length vals = length es.
+Proof.
+  induction es as [|e r IH]; intros vals H; cbn [pevals] in H; [inversion H; reflexivity|].
+  destruct (peval sg e); [|discriminate]. destruct (pevals sg r) as [vr|] eqn:E; [|discriminate]. inversion H; subst. cbn [length]. rewrite (IH vr eq_refl). reflexivity.
+Qed.
+
+Lemma evals_step XS : forall es i sg s vs s' b vals,
+  forallb pure es = true -> eval_values bash_conv true es i s = TOk vs s' -> pevals sg es = Some vals -> env_ok sg ->
+  (forall e, In e es -> side XS e) -> ctx_ok XS sg b s -> (forall x j, In x XS -> user_name s x <> ma_var s j) ->
+  exists ls b', cext s s' ls /\ exec_lines b ls = Some b' /\ ctx_ok XS sg b' s' /\ vs = ma_atoms s i (length es) /\
+     (forall j v, nth_error vals j = Some v -> sh_get (ma_var s (i + j)) b' = text v) /\
+     (forall n, (forall k, n <> helper_name s k) -> (forall j, (i <= j)%nat -> n <> ma_var s j) -> sh_get n b' = sh_get n b).
+Proof.
+  induction es as [|e r IH]; intros i sg s vs s' b vals Hp H Hv Henv Hes Hc Hma.
+  - cbn [eval_values] in H. mr H. cbn [pevals] in Hv. inversion Hv; subst vals. exists [], b.
+    split; [apply cext_refl|]. split; [reflexivity|]. split; [exact Hc|]. split; [reflexivity|].
+    split; [intros j v Hj; destruct j; discriminate|intros; reflexivity].
+  - cbn [forallb] in Hp. apply andb_true_iff in Hp as [Hpe Hpr]. cbn [pevals] in Hv.
+    destruct (peval sg e) as [v0|] eqn:Ev; [|discriminate]. destruct (pevals sg r) as [vr0|] eqn:Evr; [|discriminate]. inversion Hv; subst vals; clear Hv.
+    cbn [eval_values] in H. mb H as ve s1 H1 H2. mb H2 as v s2 H2 H3. mb H3 as vr s3 H3 H4. mr H4.
+    mb H2 as u1 s4 H2a H2b. mu H2a. subst s4. inversion H2b; subst v s2; clear H2b.
+    destruct (Hes e (or_introl eq_refl)) as [Hl [Hn Hi]]. destruct Hc as [Cf Hrep Hhy Hinj].
+    pose proof (expr_preserve e Hpe sg true s ve s1 b v0 H1 Ev Henv Hl (represents_incl _ _ _ _ _ Hrep Hi) (hygienic_incl _ _ _ Hhy Hi))
+      as [l1 a1 b1 O1 E1 M1 R1 V1 F1 S1].
+    subst ve. cbn [first_value] in *.
+    change (ARef (var_name (add_line (LAssign (var_name s1 (ma_name i) false) (RAtom a1)) s1) (ma_name i) false)) with (ARef (ma_var s1 i)).
+    change (var_name s1 (ma_name i) false) with (ma_var s1 i) in *.
+    assert (ma_var s1 i = ma_var s i) as Hmi by exact (ma_var_ext _ _ _ i E1). rewrite Hmi in *.
+    set (s2 := add_line (LAssign (ma_var s i) (RAtom a1)) s1) in *.
+    set (b2 := sh_set (ma_var s i) (atom_text b1 a1) b1).
+    assert (cext s s2 (l1 ++ [LAssign (ma_var s i) (RAtom a1)])) as C2
+      by (eapply cext_trans; [apply cext_of_ext; [exact E1|exact (expr_mono_any _ _ _ _ _ H1)]|apply cext_line]).
+    assert (ctx_ok XS sg b2 s2) as Hc2.
+    { apply (ctx_cext XS _ _ s _ _ C2). constructor; [exact Cf| |exact Hhy|exact Hinj].
+      intros x w Hx Hw. unfold b2. rewrite sh_get_set_other; [|exact (Hma x i Hx)].
+      rewrite F1; [exact (Hrep x w Hx Hw)|]. intros k _ Heq. exact (Hhy x k Hx Heq). }
+    destruct (IH (S i) sg s2 vr s' b2 vr0 Hpr H3 Evr Henv (fun e0 He0 => Hes e0 (or_intror He0)) Hc2) as (ls2 & b3 & E3 & R3 & C3 & Hvs & V3 & F3).
+    { intros x j Hx. rewrite (user_name_cext _ _ _ x C2), (ma_var_cext _ _ _ j C2). exact (Hma x j Hx). }
+    exists ((l1 ++ [LAssign (ma_var s i) (RAtom a1)]) ++ ls2), b3.
+    split; [eapply cext_trans; eassumption|].
+    split; [rewrite exec_lines_app, exec_lines_app, R1; cbn [exec_lines exec_line eval_rhs]; exact R3|].
+    split; [exact C3|].
+    assert (forall n k, ma_atoms s2 k n = ma_atoms s k n) as Hat
+      by (induction n as [|n IHn]; intro k; [reflexivity|]; cbn [ma_atoms]; rewrite (ma_var_cext _ _ _ k C2), IHn; reflexivity).
+    split; [cbn [length ma_atoms]; rewrite Hvs, Hat; reflexivity|].
+    split.
+    + intros j w Hj. destruct j as [|j].
+      * cbn [nth_error] in Hj. inversion Hj; subst w. rewrite Nat.add_0_r. rewrite F3.
+        -- unfold b2. rewrite sh_get_set_same. exact V1.
+        -- intro k. rewrite (helper_name_cext _ _ _ k C2). apply ma_not_helper.
+        -- intros j Hj0 Heq. rewrite (ma_var_cext _ _ _ j C2) in Heq. apply ma_var_inj in Heq. lia.
+      * cbn [nth_error] in Hj. replace (i + S j)%nat with (S i + j)%nat by lia. rewrite <- (ma_var_cext _ _ _ (S i + j)%nat C2). exact (V3 j w Hj).
+    + intros n Hh Hm. rewrite F3.
+      * unfold b2. rewrite sh_get_set_other; [|apply Hm; apply le_n]. apply F1. intros k _. apply Hh.
+      * intro k. rewrite (helper_name_cext _ _ _ k C2). apply Hh.
+      * intros j Hj. rewrite (ma_var_cext _ _ _ j C2). apply Hm. lia.
+Qed.
+
+Lemma simP_assign_multi XS sg xs es vals r sg' out g :
+  forallb pure es = true -> (forall e, In e es -> side XS e) -> (forall x, In x xs -> In x XS) -> (2 <= length xs)%nat ->
+  length es = length xs -> pevals sg es = Some vals -> env_ok (assign_all sg xs vals) ->
+  simP XS (assign_all sg xs vals) r sg' out g -> simP XS sg (SAssign xs es :: r) sg' out g.
+Proof.
+  intros Hp Hs Hxs H2x Le Hv Henv1 IH s u s' b Ht Hf Henv Hc Hfl.
+  cbn [go_fix] in Ht. mb Ht as u1 sA H1 H2. cbn [frag2_all] in Hf. apply andb_true_iff in Hf as [_ Hfr].
+  cbn [t_stmt] in H1. unfold assign_values in H1. rewrite Le, Nat.ltb_irrefl in H1.
+  replace (firstn (length xs) es) with es in H1 by (rewrite <- Le; symmetry; apply firstn_all).
+  assert ((1 <? length xs)%nat = true) as Hm by (apply Nat.ltb_lt; lia). rewrite Hm in H1.
+  mb H1 as vs s1 H1 H3.
+  destruct Hfl as [Fl1 [Fl2 [Fl3 [Fl4 Fl5]]]].
+  destruct (evals_step XS es 0 sg s vs s1 b vals Hp H1 Hv Henv Hs Hc Fl5) as (ls1 & b1 & E1 & R1 & C1 & Hvs & V1 & F1).
+  pose proof (pevals_length sg es vals Hv) as Lv. subst vs.
+  assert (map (atom_text b1) (ma_atoms s 0 (length es)) = map text vals) as Hmap by (rewrite <- Lv; apply ma_values; exact V1).
+  destruct (stores_step XS xs (ma_atoms s 0 (length es)) vals sg s1 u1 sA b1 H3 ltac:(rewrite ma_atoms_length; exact Le) ltac:(lia) Hxs Hmap) as (ls2 & b2 & E2 & R2 & C2 & M2 & F2).
+  { intros a x Ha Hx Heq. destruct (ma_atoms_in s _ _ a Ha) as (j & ->). inversion Heq as [Hn].
+    rewrite (user_name_cext _ _ _ x E1) in Hn. exact (Fl5 x j Hx (eq_sym Hn)). }
+  { exact C1. }
+  assert (cext s sA (ls1 ++ ls2)) as CA by (eapply cext_trans; eassumption).
+  assert (fresh_flags XS s) as Hfl by (split; [exact Fl1|split; [exact Fl2|split; [exact Fl3|split; [exact Fl4|exact Fl5]]]]).
+  destruct (IH sA u s' b2 H2 Hfr Henv1 C2 (fresh_cext _ _ _ _ CA Hfl)) as (X2 & b3 & E3 & C3 & U3 & Hk).
+  exists ((ls1 ++ ls2) ++ X2), b3. split; [eapply cext_trans; eassumption|]. split; [exact C3|].
+  split.
+  { apply (untouched_trans XS s sA s' _ b b2 b3 CA (cx_mono _ _ _ E3)); [|exact U3].
+    intros n Hu Hh _ _ _ Hma. rewrite F2; [|intros x Hx; rewrite (user_name_cext _ _ _ x E1); exact (Hu x (Hxs x Hx))].
+    apply F1; [exact Hh|intros j _; apply Hma]. }
+  intros L rest res H. rewrite <- app_assoc. rewrite <- (prepend_nil (prepend out res)).
+  apply (lruns_straight (ls1 ++ ls2) b b2 [] L); [|exact (Hk L rest res H)].
+  apply exec_outs_silent.
+  - rewrite forallb_app, (exec_lines_no_echo ls1 b b1 R1), (exec_lines_no_echo ls2 b1 b2 R2). reflexivity.
+  - rewrite exec_lines_app, R1. exact R2.
+Qed.
+
 (* ---- call statements ---- *)
 Lemma lruns_call f args e e1 o1 L rest res :
   (exists f0, forall fu, (f0 <= fu)%nat -> call fu f (map (atom_text e) args) e = Some (e1, o1)) -> lruns e1 L rest res ->
@@ -790,13 +1066,14 @@ Proof.
     intros x w Hx Hw. rewrite F1; [exact (Hrep x w Hx Hw)|]. intros k _ Heq. exact (Hhy x k Hx Heq). }
   destruct (call_ok XS f vals sg rvals sg1 o b1 s1 Hs Henv Hc1 (fresh_cext _ _ _ _ C1 Hfl)) as (b2 & Hcall & Hc2 & U2 & Hrv).
   exists l1, b2. split; [exact C1|]. split; [exact Hc2|]. split.
-  { intros n Hu Hh Hf Hm Hr. rewrite U2.
+  { intros n Hu Hh Hf Hm Hr Hma. rewrite U2.
     - apply F1. intros k _. apply Hh.
     - intros x Hx. rewrite (user_name_cext _ _ _ x C1). apply Hu. exact Hx.
     - intro k. rewrite (helper_name_cext _ _ _ k C1). apply Hh.
     - intros k Hk. apply Hf. pose proof (cx_mono _ _ _ C1). lia.
     - exact Hm.
-    - exact Hr. }
+    - exact Hr.
+    - intro i. rewrite (ma_var_cext _ _ _ i C1). apply Hma. }
   split; [exact Hrv|].
   intros L rest res Hk. rewrite <- (prepend_nil (prepend o res)).
   apply (lruns_straight l1 b b1 [] L).
@@ -866,8 +1143,8 @@ Proof.
   split; [eapply cext_trans; eassumption|]. split; [exact C5|].
   split.
   { apply (untouched_trans XS s sF s' _ b b4 b5 CF (cx_mono _ _ _ E2)); [|exact U5].
-    intros n Hu Hh Hf Hm Hr. unfold b4, b3. rewrite sh_get_set_other; [|rewrite Hxn; intro Heq; exact (Hu x Hx Heq)].
-    rewrite sh_get_set_other; [|rewrite Hhn; intro Heq; exact (Hh _ Heq)]. apply (untouched_gen XS s s s1 sF [] b b2 (cext_refl s)); [unfold sF; cbn [add_line b_for_counter]; rewrite (helper_assign_forc _ _ _ _ EH); apply le_n|exact U2| | | | |]; assumption. }
+    intros n Hu Hh Hf Hm Hr Hma. unfold b4, b3. rewrite sh_get_set_other; [|rewrite Hxn; intro Heq; exact (Hu x Hx Heq)].
+    rewrite sh_get_set_other; [|rewrite Hhn; intro Heq; exact (Hh _ Heq)]. apply (untouched_gen XS s s s1 sF [] b b2 (cext_refl s)); [unfold sF; cbn [add_line b_for_counter]; rewrite (helper_assign_forc _ _ _ _ EH); apply le_n|exact U2| | | | | |]; assumption. }
   intros L rest res H. rewrite <- !app_assoc. rewrite <- prepend_app. apply Hk1.
   rewrite <- (prepend_nil (prepend out res)).
   apply (lruns_straight [LAssign hn (RAtom (ARef (rv_name 0))); LAssign xn (RAtom (ARef hn))] b2 b4 [] L); [|exact (Hk L rest res H)].
@@ -881,6 +1158,83 @@ Lemma simP_call_define XS sg x f t args vals rv sg1 o r sg' out g :
 Proof.
   intros Hp Hs Hx Hv Hsc Henv1 IH s u s' b Ht Hf. 
   exact (simP_call_assign XS sg x f t args vals rv sg1 o r sg' out g Hp Hs Hx Hv Hsc Henv1 IH s u s' b Ht Hf).
+Qed.
+
+(* several results: x, y = f(args) *)
+Lemma call_multi_decompose f rets args s vs s' :
+  t_expr bash_conv (ECall f rets args) true s = TOk vs s' ->
+  exists va s1, args_fix args s = TOk va s1 /\
+     vs = copy_atoms (add_line (LCall f va) s1) (b_var_counter s1) (length rets) /\
+     cext (add_line (LCall f va) s1) s' (copy_lines (add_line (LCall f va) s1) (b_var_counter s1) 0 (length rets)).
+Proof.
+  intro H. destruct (call_decompose _ _ _ _ _ _ _ H) as (va & s1 & Ha & Hcv). exists va, s1. split; [exact Ha|].
+  assert (cv_func_call bstate atom bash_conv f va rets true s1 =
+          (let '(vals, s2, _) := fold_left (fun (acc : list atom * bstate * nat) (_ : vtype) =>
+                 let '(vs, st, i) := acc in let '(h, st') := helper_assign (RAtom (ARef (rv_name i))) st in (vs ++ [h], st', S i)) rets ([], add_line (LCall f va) s1, 0%nat) in (vals, s2))) as E by reflexivity.
+  destruct (copies_fold rets [] (add_line (LCall f va) s1) 0%nat) as (s2 & j & Hf & E2).
+  rewrite Hf in E. cbn [app] in E. rewrite E in Hcv. cbn [fst andb] in Hcv. rewrite copy_atoms_length, Nat.eqb_refl in Hcv. cbn [negb] in Hcv.
+  inversion Hcv; subst vs s'. split; [reflexivity|exact E2].
+Qed.
+
+Lemma copy_atoms_in st : forall n k a, In a (copy_atoms st k n) -> exists j, a = ARef (helper_name st j).
+Proof.
+  induction n as [|n IH]; intros k a H; [destruct H|]. cbn [copy_atoms In] in H. destruct H as [<-|H]; [exists k; reflexivity|exact (IH (S k) a H)].
+Qed.
+
+Lemma copy_lines_no_echo st : forall n k i, forallb no_echo (copy_lines st k i n) = true.
+Proof. induction n as [|n IH]; intros k i; [reflexivity|]. cbn [copy_lines forallb]. rewrite IH. reflexivity. Qed.
+
+Lemma simP_call_assign_multi XS sg xs f rets args vals rvals sg1 o r sg' out g :
+  forallb pure args = true -> (forall e, In e args -> side XS e) -> (forall x, In x xs -> In x XS) -> pevals sg args = Some vals ->
+  scall XS f vals sg rvals sg1 o -> length rets = length xs -> length rvals = length xs -> env_ok (assign_all sg1 xs rvals) ->
+  simP XS (assign_all sg1 xs rvals) r sg' out g -> simP XS sg (SAssignCall xs (ECall f rets args) :: r) sg' (o ++ out) g.
+Proof.
+  intros Hp Hs Hxs Hv Hsc Lr Lv Henv1 IH s u s' b Ht Hf Henv Hc Hfl.
+  cbn [go_fix] in Ht. mb Ht as u1 sA H1 H2. cbn [frag2_all] in Hf. apply andb_true_iff in Hf as [_ Hfr].
+  cbn [t_stmt] in H1. unfold assign_call in H1. mb H1 as vs0 sB H1 H3.
+  destruct (call_multi_decompose _ _ _ _ _ _ H1) as (va & s1 & Ha & Hv0 & EB). subst vs0.
+  set (sc := add_line (LCall f va) s1) in *. set (K := b_var_counter s1) in *.
+  rewrite Lr in *. rewrite copy_atoms_length, Nat.eqb_refl in H3.
+  destruct (call_args XS sg f args s va s1 b vals rvals sg1 o Hp Ha Hv Henv Hs Hc Hfl Hsc) as (l1 & b2 & C1 & Hc2 & U2 & Hrv & Hk1).
+  destruct (copies_exec sc (length xs) K 0 b2) as (b3 & R3 & V3 & F3).
+  assert (cext s1 sB ([LCall f va] ++ copy_lines sc K 0 (length xs))) as C1B by (eapply cext_trans; [apply cext_line|exact EB]).
+  assert (forall k, helper_name sc k = helper_name s1 k) as Hhn by (intro k; reflexivity).
+  destruct Hc2 as [Cf2 Hrep2 Hhy2 Hinj2].
+  assert (ctx_ok XS sg1 b3 sB) as Hc3.
+  { apply (ctx_cext XS _ _ s1 _ _ C1B). constructor; [exact Cf2| |exact Hhy2|exact Hinj2].
+    intros y w Hy Hw. rewrite F3; [exact (Hrep2 y w Hy Hw)|]. intros j _. rewrite Hhn. exact (Hhy2 y j Hy). }
+  assert (map (atom_text b3) (copy_atoms sc K (length xs)) = map text rvals) as Hmap.
+  { rewrite <- Lv. apply copies_values. intros j v Hj. rewrite V3; [exact (Hrv j v Hj)|].
+    rewrite <- Lv. apply nth_error_Some. rewrite Hj. discriminate. }
+  destruct (stores_step XS xs (copy_atoms sc K (length xs)) rvals sg1 sB u1 sA b3 H3 ltac:(apply copy_atoms_length) Lv Hxs Hmap) as (ls & b4 & E4 & R4 & C4 & M4 & F4).
+  { intros a x Ha0 Hx Heq. destruct (copy_atoms_in sc _ _ a Ha0) as (j & ->). inversion Heq as [Hn]. rewrite Hhn in Hn.
+    rewrite (user_name_cext _ _ _ x C1B) in Hn. exact (Hhy2 x j Hx (eq_sym Hn)). }
+  { exact Hc3. }
+  assert (cext s sA (l1 ++ ([LCall f va] ++ copy_lines sc K 0 (length xs)) ++ ls)) as CA
+    by (eapply cext_trans; [exact C1|]; eapply cext_trans; [exact C1B|exact E4]).
+  destruct (IH sA u s' b4 H2 Hfr Henv1 C4 (fresh_cext _ _ _ _ CA Hfl)) as (X2 & b5 & E2 & C5 & U5 & Hk).
+  exists ((l1 ++ ([LCall f va] ++ copy_lines sc K 0 (length xs)) ++ ls) ++ X2), b5.
+  split; [eapply cext_trans; eassumption|]. split; [exact C5|].
+  split.
+  { apply (untouched_trans XS s sA s' _ b b4 b5 CA (cx_mono _ _ _ E2)); [|exact U5].
+    intros n Hu Hh Hfn Hm Hr Hma. rewrite F4; [|intros x Hx; rewrite (user_name_cext _ _ _ x (cext_trans _ _ _ _ _ C1 C1B)); exact (Hu x (Hxs x Hx))].
+    rewrite F3; [|intros j _; rewrite Hhn, (helper_name_cext _ _ _ j C1); apply Hh].
+    apply (untouched_gen XS s s s1 sA [] b b2 (cext_refl s)); [exact (cx_mono _ _ _ (cext_trans _ _ _ _ _ C1B E4))|exact U2| | | | | |]; assumption. }
+  intros L rest res H. rewrite <- !app_assoc. rewrite <- prepend_app. apply Hk1.
+  rewrite <- (prepend_nil (prepend out res)). rewrite app_assoc.
+  apply (lruns_straight (copy_lines sc K 0 (length xs) ++ ls) b2 b4 [] L); [|exact (Hk L rest res H)].
+  apply exec_outs_silent.
+  - rewrite forallb_app, copy_lines_no_echo, (exec_lines_no_echo ls b3 b4 R4). reflexivity.
+  - rewrite exec_lines_app, R3. exact R4.
+Qed.
+
+Lemma simP_call_define_multi XS sg xs f rets args vals rvals sg1 o r sg' out g :
+  forallb pure args = true -> (forall e, In e args -> side XS e) -> (forall x, In x xs -> In x XS) -> pevals sg args = Some vals ->
+  scall XS f vals sg rvals sg1 o -> length rets = length xs -> length rvals = length xs -> env_ok (assign_all sg1 xs rvals) ->
+  simP XS (assign_all sg1 xs rvals) r sg' out g -> simP XS sg (SVarDefCall xs (ECall f rets args) :: r) sg' (o ++ out) g.
+Proof.
+  intros Hp Hs Hxs Hv Hsc Lr Lv Henv1 IH s u s' b Ht Hf.
+  exact (simP_call_assign_multi XS sg xs f rets args vals rvals sg1 o r sg' out g Hp Hs Hxs Hv Hsc Lr Lv Henv1 IH s u s' b Ht Hf).
 Qed.
 
 Lemma simP_break XS sg r : simP XS sg (SBreak :: r) sg [] SB.
@@ -1044,7 +1398,7 @@ Proof.
   { rewrite Vts. clear. induction ts as [|t r IH]; [reflexivity|]. cbn [map]. rewrite text_bool, IH. reflexivity. }
   assert (length ts = length elifs) as Lts by (rewrite <- Lcs; rewrite <- (map_length (atom_text bc) cs), Vts', map_length; reflexivity).
   assert (cext s sc Lc) as CLc by (apply cext_of_ext; [exact ELc|pose proof (expr_mono _ _ _ _ E0); pose proof (conds_mono _ _ _ _ Ec); lia]).
-  assert (forall sx, untouched XS s sx b bc) as Uc by (intros sx n _ Hh _ _ _; apply Fc; intros k _; apply Hh).
+  assert (forall sx, untouched XS s sx b bc) as Uc by (intros sx n _ Hh _ _ _ _; apply Fc; intros k _; apply Hh).
   assert (ctx_ok XS sg bc sc) as Hcc.
   { apply (ctx_ext XS sg bc s sc Lc ELc). constructor; [exact Cf| |exact Ch|exact Ci].
     apply (represents_frame sg b bc s XS (b_var_counter s) Cr Ch). intros n Hn. apply Fc. intros k Hk. apply Hn. lia. }
@@ -1114,7 +1468,7 @@ Proof.
 Qed.
 
 Lemma untouched_set_flag XS s s' k v b : (b_for_counter s <= k < b_for_counter s')%nat -> untouched XS s s' b (sh_set (fname k) v b).
-Proof. intros Hk n _ _ Hf _ _. rewrite sh_get_set_other; [reflexivity|apply (Hf k); right; exact Hk]. Qed.
+Proof. intros Hk n _ _ Hf _ _ _. rewrite sh_get_set_other; [reflexivity|apply (Hf k); right; exact Hk]. Qed.
 
 Lemma for_start_cext si : cext si (cv_for_start bstate atom bash_conv si) [LForInit (flag_of si); LWhile].
 Proof. rewrite bash_for_start. constructor; cbn [add_line b_code b_funcs b_func_counter b_for_counter]; [rewrite <- app_assoc; reflexivity|reflexivity|reflexivity|lia]. Qed.
@@ -1247,7 +1601,7 @@ Proof.
   split; [exact (ctx_cext _ _ _ _ _ _ (cext_line _ sc) Hcc)|].
   assert (forall n, (forall k, n <> helper_name sn k) -> sh_get n bc = sh_get n bF) as Fr by (intros n Hh; apply F1; intros k _; apply Hh).
   split.
-  { apply (untouched_compose XS si sc b bF); [exact (untouched_gen XS si si sn sc [] b bF (cext_refl si) (expr_mono _ _ _ _ Ec) UF)|]. intros n _ Hh _ _ _. apply Fr. intro k.
+  { apply (untouched_compose XS si sc b bF); [exact (untouched_gen XS si si sn sc [] b bF (cext_refl si) (expr_mono _ _ _ _ Ec) UF)|]. intros n _ Hh _ _ _ _. apply Fr. intro k.
     rewrite (helper_name_cext _ _ _ k (cext_trans _ _ _ _ _ (for_start_cext si) ERn)). apply Hh. }
   split; [rewrite text_bool in V1; exact (cond_of_text bc a t V1)|].
   split; [pose proof (expr_mono _ _ _ _ Ec); lia|].
@@ -1336,13 +1690,14 @@ Proof.
   (* the next rounds start from the environment the body left *)
   assert (ctx_ok XS sg2 b3 (cv_for_start bstate atom bash_conv si)) as Hc3 by exact (ctx_cext_rev _ _ _ _ _ _ ER Cc3).
   assert (incr <> None -> flag_set b3 (fname (b_for_counter si)) = negb false) as Hflag3.
-  { intro Hi. specialize (Hf2 Hi). cbn [negb]. unfold flag_set in *. rewrite U3; [exact Hf2| | | | |].
+  { intro Hi. specialize (Hf2 Hi). cbn [negb]. unfold flag_set in *. rewrite U3; [exact Hf2| | | | | |].
     - intros x Hx. intro Heq. exact (proj1 HflB x (b_for_counter si) Hx (eq_sym Heq)).
     - intro k. apply fname_not_helper.
     - intros k Hk0 Heq. unfold fname in Heq. apply app_inv_head in Heq. unfold dec_nat in Heq. apply dec_N_inj in Heq. apply Nat2N.inj in Heq.
       destruct Hfl as [_ [_ [Hklo _]]]. unfold sB in Hk0. cbn [add_line b_for_counter] in Hk0. lia.
     - intros c x _ Heq. unfold fname, mangled in Heq. cbn in Heq. inversion Heq.
-    - intros i Heq. unfold fname, rv_name in Heq. cbn in Heq. inversion Heq. }
+    - intros i Heq. unfold fname, rv_name in Heq. cbn in Heq. inversion Heq.
+    - intros i Heq. exact (fname_not_ma _ _ _ Heq). }
   destruct (Hnext si sn sc sd vc b3 LT Hside Henv2 Hc3 Hfl Hflag3) as (R' & b' & ER' & CR' & Cc' & U' & Hk').
   assert (R' = H ++ [LBreakUnless a] ++ B) as -> by exact (code_same_cext _ _ _ _ (cx_code _ _ _ ER') ER).
   exists (H ++ [LBreakUnless a] ++ B), b'.
@@ -1449,9 +1804,13 @@ Theorem J_sim : forall XS c sg sg' out g, J XS c sg sg' out g -> env_ok sg -> si
 Proof.
   intros XS c sg sg' out g H.
   induction H as [sg|sg x e v r sg' out g Hp Hs Hx Hv Henv' Hr IH|sg x e v r sg' out g Hp Hs Hx Hv Henv' Hr IH
+                 |sg xs es vals r sg' out g Hp Hs Hxs H2x Le Hv Henv' Hr IH
+                 |sg xs es vals r sg' out g Hp Hs Hxs H2x Le Hv Henv' Hr IH
                  |sg es vals r sg' out g Hp Hs Hv Hr IH
                  |sg x f t args vals rv sg1 o r sg' out g Hp Hs Hx Hv Hsc Henv' Hr IH
                  |sg x f t args vals rv sg1 o r sg' out g Hp Hs Hx Hv Hsc Henv' Hr IH
+                 |sg xs f rets args vals rvals sg1 o r sg' out g Hp Hs Hxs Hv Hsc Lr Lv Henv' Hr IH
+                 |sg xs f rets args vals rvals sg1 o r sg' out g Hp Hs Hxs Hv Hsc Lr Lv Henv' Hr IH
                  |sg f rets args vals rvals sg1 o r sg' out g Hp Hs Hv Hsc Henv' Hr IH
                  |sg r Hfr|sg r Hfr
                  |sg c0 b0 elifs els bools sgm outm r sg' out g Hfrag Hside Hv Hch IHch Hr IHr
@@ -1465,9 +1824,14 @@ Proof.
   - exact (simP_assign XS sg x e v r sg' out g Hp Hs Hx Hv Henv' (IH Henv')).
   - intros s u s' b Ht. change (go_fix (SVarDef [x] [e] :: r) s) with (go_fix (SAssign [x] [e] :: r) s) in Ht.
     revert s u s' b Ht. exact (simP_assign XS sg x e v r sg' out g Hp Hs Hx Hv Henv' (IH Henv')).
+  - exact (simP_assign_multi XS sg xs es vals r sg' out g Hp Hs Hxs H2x Le Hv Henv' (IH Henv')).
+  - intros s u s' b Ht. change (go_fix (SVarDef xs es :: r) s) with (go_fix (SAssign xs es :: r) s) in Ht.
+    revert s u s' b Ht. exact (simP_assign_multi XS sg xs es vals r sg' out g Hp Hs Hxs H2x Le Hv Henv' (IH Henv')).
   - exact (simP_print XS sg es vals r sg' out g Hp Hs Hv (IH Henv)).
   - exact (simP_call_assign XS sg x f t args vals rv sg1 o r sg' out g Hp Hs Hx Hv Hsc Henv' (IH Henv')).
   - exact (simP_call_define XS sg x f t args vals rv sg1 o r sg' out g Hp Hs Hx Hv Hsc Henv' (IH Henv')).
+  - exact (simP_call_assign_multi XS sg xs f rets args vals rvals sg1 o r sg' out g Hp Hs Hxs Hv Hsc Lr Lv Henv' (IH Henv')).
+  - exact (simP_call_define_multi XS sg xs f rets args vals rvals sg1 o r sg' out g Hp Hs Hxs Hv Hsc Lr Lv Henv' (IH Henv')).
   - exact (simP_call_stmt XS sg f rets args vals rvals sg1 o r sg' out g Hp Hs Hv Hsc Henv' (IH Henv')).
   - apply simP_break.
   - apply simP_continue.
